@@ -2,6 +2,7 @@ import PhyVerif.Model.C02
 import PhyVerif.Spec.C01
 import PhyVerif.Lemmas.C02
 import PhyVerif.Lemmas.C02b
+import PhyVerif.Lemmas.C02c
 /-!
 # C02 — lazy reader expressions commute with eager evaluation; deriving never aliases
 Only property theorems + non-vacuity examples; proofs in `Lemmas/C02.lean`.
@@ -96,6 +97,49 @@ theorem aliasing_variant_changes_parent (β : Type) (s : Store β) (hwf : s.WF) 
     (hs : self < s.readers.length) :
     (run s (aliasingVariant s self op)).opsOf self = s.opsOf self ++ [op] :=
   Lemmas.aliasing_variant_changes_parent s hwf self op hs
+
+/-! ### The block `__getitem__` hands out, and what the caller does to it (Model/C02c)
+
+Array objects live in a memory by address; the storage the readers read from is its first `np` objects (one per part).
+`np ≤ m.arrays.length` says that these objects exist (a reader of the real code has its parts). -/
+
+/-- The block a reader hands out holds exactly what `eval` says (so `eval_eq_eager` speaks about it), and it is a NEW
+object: its address is the first free one and every object that existed is as it was. -/
+theorem getitem_block_fresh {β : Type} (h : Heap β) (m : Mem β) (np : Nat) (r : Nat) (it : Item) :
+    (getitem m np (h.getD r []) it).map (fun p => p.1.block p.2) = eval h (m.parts np) r it ∧
+    ∀ m' a, getitem m np (h.getD r []) it = some (m', a) →
+      a = m.arrays.length ∧ m'.arrays.take m.arrays.length = m.arrays :=
+  ⟨Lemmas.getitem_block h m np r it, fun m' a hg => Lemmas.getitem_fresh m np _ it m' a hg⟩
+
+/-- Whatever the caller writes, in place, into a block it was handed (by any reader of the family, for any index
+expression), the storage is as it was, so EVERY reader - the one indexed, its parent, its siblings, readers derived
+later (any heap `h'`) - returns afterwards what it returned before, for every index expression, with or without a
+channel selector. -/
+theorem scribble_preserves_returns {β : Type} (m : Mem β) (np : Nat) (hnp : np ≤ m.arrays.length)
+    (ops : List (Op β)) (it : Item) (m' : Mem β) (a : Nat) (hg : getitem m np ops it = some (m', a))
+    (f : List (List β) → List (List β)) :
+    (scribble m' a f).parts np = m.parts np ∧
+    ∀ (h' : Heap β) (r' : Nat) (it' : Item),
+      eval h' ((scribble m' a f).parts np) r' it' = eval h' (m.parts np) r' it' ∧
+      ∀ c, evalCols h' ((scribble m' a f).parts np) r' it' c = evalCols h' (m.parts np) r' it' c :=
+  ⟨Lemmas.scribble_parts m np hnp ops it m' a hg f, fun h' r' it' => by
+    rw [Lemmas.scribble_parts m np hnp ops it m' a hg f]; exact ⟨rfl, fun _ => rfl⟩⟩
+
+/-- a two-part recording: the block of `reader[1:3]` (rows of both parts) is object 2; zeroing it changes nothing the
+parent returns; and the model can express the rewrite that skips `np.vstack` for one part and tells it apart: there
+the parent returns the caller's zeros -/
+example :
+    let m : Mem Nat := ⟨[[[1, 2]], [[3, 4], [5, 6]]]⟩
+    let zero : List (List Nat) → List (List Nat) := fun b => b.map fun r => r.map fun _ => 0
+    (getitem m 2 [] (.slice (some 1) (some 3))).map (fun p => (p.2, p.1.block p.2)) = some (2, [[3, 4], [5, 6]]) ∧
+    ((getitem m 2 [] (.slice (some 1) (some 3))).map fun p =>
+        eval [[]] ((scribble p.1 p.2 zero).parts 2) 0 (.slice none none)) = some (some [[1, 2], [3, 4], [5, 6]]) ∧
+    (let m1 : Mem Nat := ⟨[[[3, 4], [5, 6]]]⟩
+     ((getitem m1 1 [] (.slice none none)).map fun p =>
+        eval [[]] ((scribble p.1 p.2 zero).parts 1) 0 (.int 1)) = some (some [[5, 6]]) ∧
+     ((getitemNoCopy m1 1 [] (.slice none none)).map fun p =>
+        eval [[]] ((scribble p.1 p.2 zero).parts 1) 0 (.int 1)) = some (some [[0, 0]])) := by
+  refine ⟨by decide, by decide, by decide, by decide⟩
 
 /-! Non-vacuity: cells are (id, trace of applied operator tokens) -/
 example :
